@@ -403,7 +403,7 @@ Section Hidden.
     Lemma build_from_hid f : forall a b, ctx_hid a b -> from_hides (hides names) names f = true ->
       build_from rec join a f = build_from rec join b f.
     Proof.
-      induction f as [|path alias|fn path alias|q alias|jt st l IHl r IHr on]; intros a b Hab Hf;
+      induction f as [|path alias|fn path alias|sl alias|q alias|jt st l IHl r IHr on]; intros a b Hab Hf;
         cbn [build_from from_hides] in *.
       - reflexivity.
       - destruct path as [|k rest]; [reflexivity|].
@@ -435,6 +435,7 @@ Section Hidden.
         destruct (up_read a path) as [h1|], (up_read b path) as [h2|];
           cbn [hit_hid] in Hh; try contradiction; [reflexivity|].
         rewrite (ch_data _ _ Hab). reflexivity.
+      - discriminate Hf.
       - apply bind_ext; [apply Hrec; [exact Hab|exact Hf]|]. reflexivity.
       - apply Bool.andb_true_iff in Hf. destruct Hf as [Hl Hr].
         rewrite (IHl a b Hab Hl), (IHr a b Hab Hr), (ch_data _ _ Hab). reflexivity.
@@ -523,12 +524,13 @@ Section Hidden.
     from_avoids names f = true ->
     build_from rec join (mkc d ctes busy up) f = build_from rec join (mkc d [] [] up) f.
   Proof.
-    induction f as [|path alias|fn path alias|q alias|jt st l IHl r IHr on]; cbn [from_avoids]; intros H.
+    induction f as [|path alias|fn path alias|sl alias|q alias|jt st l IHl r IHr on]; cbn [from_avoids]; intros H.
     - reflexivity.
     - destruct path as [|k rest]; [reflexivity|].
       apply Bool.negb_true_iff in H. cbn [build_from mkc c_ctes c_data c_busy c_up].
       rewrite (Hnames k H). reflexivity.
     - reflexivity.
+    - discriminate.
     - discriminate.
     - apply Bool.andb_true_iff in H. destruct H as [H1 H2].
       cbn [build_from]. rewrite (IHl H1), (IHr H2). reflexivity.
